@@ -191,6 +191,29 @@ def read_trace(workdir) -> list[list]:
     return rows
 
 
+def source_line(qualname: str, line: int) -> str:
+    """stripped source text of a line of one of the monitored functions ('' if unknown)"""
+    import linecache
+
+    codes, _ = target_codes()
+    for c, name in codes.items():
+        if name == qualname:
+            return linecache.getline(c.co_filename, line).strip()
+    return ""
+
+
+def locate(trace, at: dict):
+    """index of the event described by {"function", "text", "occurrence"} (a point named by its
+    source text survives unrelated edits of the tree, an event index does not); None if absent"""
+    n = 0
+    for row in trace:
+        if row[2] == at["function"] and source_line(row[2], row[3]) == at["text"]:
+            if n == at.get("occurrence", 0):
+                return row
+            n += 1
+    return None
+
+
 def read_fired(workdir) -> dict | None:
     p = Path(workdir) / "fired.json"
     if not p.exists():
